@@ -35,6 +35,9 @@ def search(su, U, k, K, kind, early=False, resume=False, k2=0, timeout_s=300, so
     h.precreate()
     for i in range(k):
         h.sym_call(i)
+    lens0 = {t: h.st.nelems(t) for t in h.sch.types}
+    roots0 = {(t, i): h.st.is_root(t, i) for t in h.sch.types for i in range(U)}
+    ev0 = len(h.ctx.events)
 
     def on_cond(g):
         if kind == "struct":
@@ -45,6 +48,11 @@ def search(su, U, k, K, kind, early=False, resume=False, k2=0, timeout_s=300, so
             bad.append(-M.conj(property_items("struct", h.st, su.rules)))
         if kind == "closed" and not resume:
             bad.append(c.and2(-rv, -M.conj(property_items("closed", h.st, su.rules))))
+        if kind == "noalloc":       # C06: close() allocated an element, created a class, or needs more than K iterations
+            for t in h.sch.types:
+                bad.append(-V.int_eq(h.st.nelems(t), lens0[t]))
+            for (t, i), r0 in roots0.items():
+                bad.append(c.and2(h.st.is_root(t, i), -r0))
         if resume:
             h.assume.append(rv)           # the first close_until stopped early
 
@@ -56,7 +64,10 @@ def search(su, U, k, K, kind, early=False, resume=False, k2=0, timeout_s=300, so
         def on_return_second(rv):
             bad.append(-M.conj(property_items(kind, h.st, su.rules)))
         h.sym_close(K, False, on_cond, on_return_second)
-    bound = c.orl([g for g, kk, _ in h.ctx.events if kk in ("bound", "compact")])
+    def loopbound(msg):
+        return kind == "noalloc" and msg.startswith("loop bound") and msg.endswith("in close_until")
+    bound = c.orl([g for g, kk, msg in h.ctx.events if kk in ("bound", "compact") and not loopbound(msg)])
+    bad += [g for g, kk, msg in h.ctx.events[ev0:] if kk == "bound" and loopbound(msg)]
     enc = time.time() - t0
     try:
         r, model = terms.solve(c, h.ctx.assumes + h.assume + [-bound, c.orl(bad)], solver=solver, timeout_s=timeout_s)
@@ -71,6 +82,8 @@ def search(su, U, k, K, kind, early=False, resume=False, k2=0, timeout_s=300, so
 def replay(su, sch, harness, name, script, kind, rules, U=8):
     """runs the script natively; returns (confirmed: bool, failing labels / description)"""
     lines = []
+    if kind == "noalloc":
+        return replay_noalloc(su, sch, harness, name, script)
     for l in script:
         # a plain close() is replayed as close_until with a condition that never holds, so that the state is
         # also dumped at every evaluation of the condition (observation points of C04)
@@ -104,6 +117,39 @@ def replay(su, sch, harness, name, script, kind, rules, U=8):
                 failing.append("%s: %s" % (where, lab))
             elif l != T:
                 raise RuntimeError("native state did not evaluate to a constant")
+    return bool(failing), failing
+
+
+def replay_noalloc(su, sch, harness, name, script):
+    """C06: the final close() of the script must terminate, allocate no element and create no class"""
+    import subprocess
+    lines = []
+    for l in script:
+        if l.startswith("close"):
+            lines.append("dump")
+        lines.append(l)
+        if l.startswith("close"):
+            lines.append("dump")
+    try:
+        rc, out, err = harness.run(name, lines, timeout=30)
+    except subprocess.TimeoutExpired:
+        return True, ["close() does not terminate within 30 s on a model with at most 3 elements per type"]
+    except Exception as ex:
+        return False, ["native run failed: %r" % ex]
+    if rc != 0:
+        return True, ["native run panics: " + err.strip().split("\n")[0][:200]]
+    dumps = [ev[2] for ev in N.parse_output(out) if ev[0] == "dump"]
+    failing = []
+    for before, after in zip(dumps[0::2], dumps[1::2]):
+        for t in sch.types:
+            n0, r0 = before[("uf", t)].split(" ", 1)
+            n1, r1 = after[("uf", t)].split(" ", 1)
+            if int(n1) != int(n0):
+                failing.append("close() changed the number of allocated %s elements from %s to %s" % (t, n0, n1))
+            c0 = len(set(N.ints(r0)))
+            c1 = len(set(N.ints(r1)))
+            if c1 > c0:
+                failing.append("close() increased the number of %s classes from %d to %d" % (t, c0, c1))
     return bool(failing), failing
 
 
